@@ -23,6 +23,7 @@ func init() {
 			"VMs that are slow over SSH (crunch-run --detach needs 5-15 ms before the process exists, crunch-run --list answers late with the snapshot taken at arrival), queue poll interval 5/20/50 ms (queue cache lagging the API), " +
 			"instance types needed by one or two containers only whose first Create fails, operator kills of BUSY instances through the management API followed by lingering destroy failures and a cancel of the container, " +
 			"instances with a temporary outage longer than TimeoutProbe, instances that report broken while busy and then stop answering, " +
+			"a slow or once-failing first queue fetch and slow first SSH commands to inherited instances after a restart (each generation starts with an empty queue cache), instances whose commands hang 80-150 ms before failing, " +
 			"API changes while containers run (cancel, priority 0, requeue), operator hold/drain, late containers, and zero or one dispatcher kill+restart (0-2 in thorough); " +
 			"stream e2e-C14-slowssh: fault-free runs in which every VM is slow over SSH and the queue is polled every 5 ms; " +
 			"non-trivial = at least one crunch-run start; distinct = (size, restarts, destroy error rate, set of VM kinds that occurred)",
